@@ -32,6 +32,10 @@ pub struct Case {
     pub cfg: Cfg,
     pub enc: Enc,
     pub perms: u8,
+    /// a raw 32-bit permission word given through `Permissions::from_bits` (reserved bits need not be in
+    /// canonical form: 0xFFFFFFFF is the most common /P value of real files); `perms` is ignored then
+    #[serde(default)]
+    pub raw_perms: Option<u32>,
 }
 
 pub fn perms_of(bits: u8) -> Permissions {
@@ -183,7 +187,11 @@ pub fn check(c: &Case) -> Outcome {
     o.label_if(!c.enc.user.is_ascii() || !c.enc.owner.is_ascii(), "password-non-ascii");
     o.label_if(c.enc.user.len() > 32 || c.enc.owner.len() > 32, "password>32-bytes");
     o.nontrivial(!c.enc.user.is_empty() || c.perms != 0xFF);
-    let perms = perms_of(c.perms);
+    let perms = match c.raw_perms {
+        Some(raw) => Permissions::from_bits(raw),
+        None => perms_of(c.perms),
+    };
+    o.label_if(c.raw_perms.is_some(), "raw-permission-word");
     let twin = match write_case(&c.prog, c.cfg, None, None) {
         Ok(b) => b,
         Err(_) => {
@@ -371,9 +379,9 @@ pub fn password() -> impl Strategy<Value = String> {
 }
 
 fn strategy() -> impl Strategy<Value = Case> {
-    (progdoc::prog(), progdoc::cfg_light(), 0u8..4, password(), password(), prop::bool::weighted(0.2), prop_oneof![Just(0xFFu8), any::<u8>()]).prop_map(|(prog, cfg, strength, user, owner, same, perms)| {
+    (progdoc::prog(), progdoc::cfg_light(), 0u8..4, password(), password(), prop::bool::weighted(0.2), prop_oneof![Just(0xFFu8), any::<u8>()], prop::option::weighted(0.25, prop_oneof![Just(0xFFFF_FFFFu32), Just(0x0000_0F3Cu32), Just(0u32), any::<u32>()])).prop_map(|(prog, cfg, strength, user, owner, same, perms, raw_perms)| {
         let owner = if same { user.clone() } else { owner };
-        Case { prog, cfg, enc: Enc { strength, user, owner }, perms }
+        Case { prog, cfg, enc: Enc { strength, user, owner }, perms, raw_perms }
     })
 }
 
